@@ -115,6 +115,27 @@ class SymField:
     def tobytes(self, order='C'):
         return SymBytes(self.nbytes)
 
+    # layout / shape conversions keep dtype and size (only those matter to the abstract file)
+    def ravel(self, order='C'):
+        return self
+
+    flatten = ravel
+
+    def reshape(self, *a, **k):
+        return self
+
+    def copy(self, *a, **k):
+        return self
+
+    def astype(self, dtype, *a, **k):
+        return SymField(dtype, self.size)
+
+    def view(self, *a, **k):
+        return self
+
+    def __array__(self, *a, **k):
+        raise TypeError('symbolic field: use the numpy shim (np.asarray / np.ascontiguousarray ...), not a real conversion')
+
 
 class NpShim:
     """numpy as seen by the fieldsIO module: arrays gain a ghost-aware tofile, fromfile reads from the ghost"""
@@ -132,6 +153,18 @@ class NpShim:
         if isinstance(x, SymField):
             return x
         return np.asarray(x, *a, **k).view(GArr)
+
+    def ascontiguousarray(self, x, *a, **k):
+        if isinstance(x, SymField):
+            return x
+        return np.ascontiguousarray(x, *a, **k).view(GArr)
+
+    asfortranarray = asanyarray = ascontiguousarray
+
+    def ravel(self, x, *a, **k):
+        if isinstance(x, SymField):
+            return x
+        return np.ravel(x, *a, **k).view(GArr)
 
     def fromfile(self, f, dtype=float, count=-1, offset=0, **k):
         if not isinstance(f, GhostHandle):
@@ -198,6 +231,15 @@ class _FIOBase(Contract):
         if partial:
             mk.assume(And(p >= 0, p < R), '0<=partial<record')
         gf = GhostFile(H + nrec * R + p)
+        # lemma (discharged as an obligation of its own, then available to the other obligations): a file of nrec whole records plus a partial
+        # tail holds floor((size - H) / R) = nrec records. Stated once here because the division by the SYMBOLIC record size makes the solvers'
+        # run time erratic when it has to be rediscovered inside larger obligations.
+        if sym.is_sym(R) or sym.is_sym(nrec) or sym.is_sym(p):
+            from contracts.ctrl import oblige
+
+            lemma = ((gf.size - H) // R) == nrec
+            oblige('lemma:whole_records_plus_partial_tail_count_nrec', lemma)
+            mk.assume(lemma, 'lemma, discharged separately')
         install_ghost(mod, gf)
         return State(mod=mod, io=io, gf=gf, H=H, R=R, nrec=nrec, p=p, nItems=nItems)
 
